@@ -239,3 +239,33 @@ Print Assumptions OJ.C01_optimize_pass_is_model.
 Print Assumptions OJ.C01_optimize_loop_is_code.
 Print Assumptions OJ.C01_optimize_function_is_code.
 Print Assumptions OJ.C01_optimize_of_rebuilt_journeys_is_code.
+
+(* tie to the source, the RENDERER of the steps: the three visit functions of StepToV2Visitor (result_to_v2.cpp) - every
+   `stepJson["key"] = step.member;`, the "action" / "type" strings, the `if (step.walkingType != EGRESS)` around
+   "readyToBoardAt", which attribute of the trip / of the stop feeds which key - are read AS THEY ARE NOW by
+   tools/gen_render.py (gen/Render.v) and executed by the interpreter of RenderJson.v (nlohmann::json objects: sorted
+   keys, last writer wins).  The step objects of an answer are the model's steps under the documented keys; names, codes,
+   uuids and coordinates are opaque (`JOpaque attribute id`: WHICH attribute of WHICH trip / stop is tied, not its text) *)
+Require Coq.Strings.String.
+Require TrV.RenderJson TrV.gen.Render.
+From TrV Require Proofs.RenderTie.
+Module RJ.
+  Import Coq.Strings.String TrV.RenderJson TrV.Proofs.RenderTie.
+  Definition gen_steps : step_tables :=
+    {| tb_walk := GR.gen_render_walk; tb_board := GR.gen_render_board; tb_unboard := GR.gen_render_unboard |}.
+  Theorem C01_json_steps_are_code : forall st, json_of_step st = render_step gen_steps st.
+  Proof. exact step_tie. Qed.
+  Theorem C01_json_walking_step_is_code : forall kind travel dist dep arr ready,
+    json_of_step (SWalk kind travel dist dep arr ready) = render_step gen_steps (SWalk kind travel dist dep arr ready).
+  Proof. exact walk_step_tie. Qed.
+  Theorem C01_json_boarding_step_is_code : forall trip legseq stopseq node dep wait,
+    json_of_step (SBoard trip legseq stopseq node dep wait) = render_step gen_steps (SBoard trip legseq stopseq node dep wait).
+  Proof. exact board_step_tie. Qed.
+  Theorem C01_json_unboarding_step_is_code : forall trip legseq stopseq node arr ivt ivd,
+    json_of_step (SUnboard trip legseq stopseq node arr ivt ivd) = render_step gen_steps (SUnboard trip legseq stopseq node arr ivt ivd).
+  Proof. exact unboard_step_tie. Qed.
+End RJ.
+Print Assumptions RJ.C01_json_steps_are_code.
+Print Assumptions RJ.C01_json_walking_step_is_code.
+Print Assumptions RJ.C01_json_boarding_step_is_code.
+Print Assumptions RJ.C01_json_unboarding_step_is_code.
